@@ -79,7 +79,11 @@ def run_party(prim, pid_, script, shared):
                 prim.clear()
                 _log(run, party=pid_, op="clear", t0=t0, s0=s0)
             elif k == "ewait":
-                r = prim.wait(op[1])
+                run.obs.data.setdefault("in_ewait", {})[pid_] = (s.steps, op[1])
+                try:
+                    r = prim.wait(op[1])
+                finally:
+                    run.obs.data["in_ewait"].pop(pid_, None)
                 _log(run, party=pid_, op="ewait", timeout=op[1], r=r, t0=t0, s0=s0)
             elif k == "is_set":
                 r = prim.is_set()
@@ -89,6 +93,8 @@ def run_party(prim, pid_, script, shared):
         except sk.SimKilled:
             raise
         except BaseException as e:  # noqa
+            if s.teardown or s.cur().killed:
+                raise sk.SimKilled()
             _log(run, party=pid_, op=k, exc=type(e).__name__, msg=str(e)[:200], t0=t0, s0=s0)
     run.obs.data["done"] = run.obs.data.get("done", 0) + 1
 
@@ -111,7 +117,7 @@ def make_prim(ctx, kind, n):
 
 # ---------------------------------------------------------------- generation
 def gen(rng, tier):
-    fam = rng.choice(["mutex", "mutex", "cond_counted", "cond_chaos", "event"])
+    fam = rng.choice(["mutex", "mutex", "cond_counted", "cond_chaos", "cond_storm", "event"])
     nparties = rng.randint(2, 4)
     procs = [rng.random() < 0.35 for _ in range(nparties)]       # party runs in a child process
     spec = dict(family="sync", fam=fam, procs=procs, knobs=gen_knobs(rng, tier), model=dict(boot=rng.choice([0.0, 0.01])))
@@ -140,6 +146,14 @@ def gen(rng, tier):
                     timed=[rng.choice([0.0, 0.001, 0.01, 0.5, 2.0]) for _ in range(T)],
                     gap=rng.choice([0.0, 0.001, 0.5]))
         spec["procs"] = [rng.random() < 0.35 for _ in range(W + T)]
+    elif fam == "cond_storm":
+        # several waiters whose time-outs expire at the very instant of a notify / notify_all
+        t = rng.choice([0.0, 0.001, 0.01, 0.2])
+        nw = rng.randint(2, 4)
+        spec.update(kind="Condition", n=1, t=t, nw=nw, how=rng.choice(["notify_all", "notify_all", "notify"]),
+                    delta=rng.choice([0.0, 0.0, 0.0, 1e-4, -1e-4]), untimed=rng.randint(0, 1))
+        spec["procs"] = [rng.random() < 0.3 for _ in range(nw + spec["untimed"])]
+        spec["knobs"]["J"] = rng.choice([0.0, 0.001, 0.05])
     elif fam == "cond_chaos":
         spec.update(kind="Condition", n=1)
         scripts = []
@@ -233,6 +247,41 @@ def program_of(spec):
             for p in parties:
                 p.join()
             return
+        if fam == "cond_storm":
+            nw, t = spec["nw"], spec["t"]
+            scripts = [[["wait", t]] for _ in range(nw)] + [[["wait", None]] for _ in range(spec["untimed"])]
+            parties = [_start(ctx, prim, i, sc, shared, spec["procs"][i]) for i, sc in enumerate(scripts)]
+            s.sleep(max(0.0, t + spec["delta"]))
+            try:
+                with prim:
+                    getattr(prim, spec["how"])()
+                _log(run, party="main", op=spec["how"], t0=s.now, s0=s.steps)
+            except AssertionError as e:
+                _log(run, party="main", op=spec["how"], exc="AssertionError", msg=str(e)[:100], t0=s.now, s0=s.steps)
+            s.sleep(5.0)
+            data["phase"] = 1
+            # nobody notifies now: a wait must time out (a stale wake-up token would make it return True)
+            with prim:
+                r = prim.wait(0.5)
+            data["quiet_wait"] = r
+            for name in ("notify", "notify_all"):
+                try:
+                    with prim:
+                        getattr(prim, name)()
+                    data.setdefault("later", []).append((name, "ok"))
+                except AssertionError as e:
+                    data.setdefault("later", []).append((name, "AssertionError"))
+            data["phase"] = 2
+            for _ in range(60):
+                if data.get("done", 0) >= len(scripts):
+                    break
+                with prim:
+                    prim.notify_all()
+                s.sleep(1.0)
+            data["all_done"] = data.get("done", 0) >= len(scripts)
+            for p in parties:
+                p.join()
+            return
         scripts = spec["scripts"]
         parties = [_start(ctx, prim, i, sc, shared, spec["procs"][i]) for i, sc in enumerate(scripts)]
         if fam == "cond_chaos":
@@ -266,8 +315,22 @@ def program_of(spec):
             data["roundtrip"] = box
         elif fam == "event":
             s.sleep(3000.0)
-            prim.set()                # releases every waiter that is still blocked
-            _log(run, party="main", op="set", t0=s.now, s0=s.steps)
+            # release the parties still blocked; a party may clear and wait again, so repeat
+            for rnd in range(40):
+                if data.get("done", 0) >= len(scripts):
+                    break
+                before = dict(data.get("in_ewait", {}))
+                nlog = len(data.get("log", []))
+                t0_, s0_ = s.now, s.steps
+                prim.set()
+                _log(run, party="main", op="set", t0=t0_, s0=s0_)
+                s.sleep(1000.0)
+                cleared = any(e["op"] == "clear" and e["step"] >= s0_ for e in data.get("log", []))
+                still = [p_ for p_, (st_, to_) in data.get("in_ewait", {}).items()
+                         if p_ in before and before[p_][0] == st_ and to_ is None]
+                if still and not cleared:
+                    data["not_released"] = still
+                    break
             for p in parties:
                 p.join()
         else:
@@ -380,7 +443,13 @@ class C14(Prop):
             for e in log:
                 if e["op"] == "lock" and e["r"] is False and e["mode"] == "block":
                     out.append(V(pid, "C14/mutex/blocking-acquire-failed", repr(e)))
-        if fam in ("cond_counted", "cond_chaos"):
+        if fam == "cond_storm":
+            if data.get("quiet_wait") is True:
+                out.append(V(pid, "C14/cond/spurious-wakeup", "wait(0.5) returned True although nobody notified (stale wake-up token)"))
+            for name, r in data.get("later", []):
+                if r != "ok":
+                    out.append(V(pid, "C14/cond/internal-assertion/%s" % name, "%s() raised %s after a burst of time-outs" % (name, r)))
+        if fam in ("cond_counted", "cond_chaos", "cond_storm"):
             for e in log:
                 if e["op"] != "wait":
                     continue
@@ -409,6 +478,8 @@ class C14(Prop):
         if fam == "cond_chaos":
             if data.get("roundtrip") != [True]:
                 out.append(V(pid, "C14/cond/unusable-after-burst", "final wait/notify_all round trip gave %r" % (data.get("roundtrip"),)))
+        if fam == "event" and data.get("not_released"):
+            out.append(V(pid, "C14/event/waiter-not-released-by-set", "parties %r stayed blocked in wait(None) across a complete set() although nobody cleared the event" % (data["not_released"],)))
         if fam == "event":
             ops = []
             for e in log:
